@@ -37,8 +37,9 @@ def run(tier, seed):
     rng = ck.rng
     thorough = tier == 'thorough'
     # parser modules of creator x that fail in every way: a PEL that uses them is well-formed and appears in all three modes alike
-    env = apel.PluginEnv(allow=True, ud={'x1111': ('echo',), 'x2222': ('raises', 'boom'), 'x3333': ('none',), 'x8888': ('import_raises', 'load failure'),
-                                         'x5a5a': ('raises', ''), 'x6b6b': ('release_raises', 'done')}, src={'xsrc': ('raises',)}, callout={'x': ('raises',)}, registry=REG).install()
+    ENVKW = dict(allow=True, ud={'x1111': ('echo',), 'x2222': ('raises', 'boom'), 'x3333': ('none',), 'x8888': ('import_raises', 'load failure'),
+                                 'x5a5a': ('raises', ''), 'x6b6b': ('release_raises', 'done')}, src={'xsrc': ('raises',)}, callout={'x': ('raises',)}, registry=REG)
+    env = apel.PluginEnv(**ENVKW).install()
     try:
         cases = []
         for _ in range(120 if thorough else 30):
@@ -144,11 +145,11 @@ def run(tier, seed):
                     ck.disagree('%s mode output differs from the model' % m, rp | {'mode': m, 'at': k, 'impl': so[max(0, k - 60):k + 60], 'model': mo[max(0, k - 60):k + 60], 'exit': (sx, mx)})
             seen_paths.add(path)
         # a sample as real subprocesses
-        # (a separate interpreter does not have this run's fixture modules: directories whose PELs need them stay in-process)
-        for (path, d, files, cfg, rev, ext) in [c for c in cases if all(p_['ph']['creator'] != ord('x') for _, p_ in c[1])][:3 if not thorough else 12]:
+        # (separate interpreters that have this run's fixture modules and its registry: harness/freshrun.py)
+        for (path, d, files, cfg, rev, ext) in cases[:3 if not thorough else 12]:
             base = ['-p', path] + clirun.cfg_argv(cfg) + (['-r'] if rev else []) + (['-e', ext] if ext is not None else [])
             for flag in ('-n', '-l', '-a'):
-                so, se, sx = clirun.run_sub(base + [flag])
+                so, se, sx = apel.fresh_cli(ENVKW, base + [flag])
                 io_, _, ix = clirun.run_main(base + [flag])
                 ck.case(key=('sub', path, flag))
                 ck.count('subprocess')
